@@ -33,6 +33,9 @@ func verifMemSet(c *ChunkCacheInMemory, fileId string, data []byte) {
 	verifMem[fileId] = append([]byte{}, data...)
 }
 
+//verif:redirect github.com/chrislusf/seaweedfs/weed/util/chunk_cache.NewChunkCacheInMemory verifNewMem
+func verifNewMem(maxEntries int64) *ChunkCacheInMemory { return &ChunkCacheInMemory{} }
+
 var verifVolSeq int
 
 // cache volumes: in-memory data file + the in-memory needle map instead of the LevelDB one
@@ -55,7 +58,10 @@ func verifNewCacheVolume(fileName string, preallocate int64) (*ChunkCacheVolume,
 func verifLayer(dir, name string, volumes int, sizeLimit int64) *OnDiskCacheLayer {
 	l := &OnDiskCacheLayer{}
 	for i := 0; i < volumes; i++ {
-		v, _ := verifNewCacheVolume(dir+"/"+name+string(rune('0'+i)), sizeLimit)
+		v, err := LoadOrCreateChunkCacheVolume(dir+"/"+name+string(rune('0'+i)), sizeLimit) // engine: redirected to verifNewCacheVolume
+		if err != nil {
+			panic(err)
+		}
 		l.diskCaches = append(l.diskCaches, v)
 	}
 	return l
@@ -69,7 +75,7 @@ var verifFids = []string{"3,01637037d6", "4,01637037d6", "3,02637037d6", "3,0163
 func VerifC31_TieredCache() {
 	dir := rt.TempDir()
 	verifMem = map[string][]byte{}
-	c := &TieredChunkCache{memCache: &ChunkCacheInMemory{}, onDiskCacheSizeLimit0: 2, onDiskCacheSizeLimit1: 4, onDiskCacheSizeLimit2: 8}
+	c := &TieredChunkCache{memCache: NewChunkCacheInMemory(100), onDiskCacheSizeLimit0: 2, onDiskCacheSizeLimit1: 4, onDiskCacheSizeLimit2: 8}
 	volSize := int64(rt.Param("volsize", 16))
 	c.diskCaches = []*OnDiskCacheLayer{verifLayer(dir, "c0_", 2, volSize), verifLayer(dir, "c1_", 2, volSize), verifLayer(dir, "c2_", 2, volSize)}
 	// chunk content is immutable per file id
